@@ -36,6 +36,28 @@ finally:
     sh('git -C /repo worktree remove --force %s' % scratch)
 print('confirmed' if meta.get('confirmed') else 'NOT CONFIRMED', meta.get('baseline_suite_with_change'), meta.get('demo_with_change'))
 # run the checks against it
+SCR = os.environ.get('SEEDED_SCRATCH') == '1'   # parallel-safe: checks run against a patched scratch worktree through VERIF_REPO
+if SCR:
+    scr2 = tempfile.mkdtemp(prefix='seedrun_', dir='/tmp'); os.rmdir(scr2)
+    assert sh('git -C /repo worktree add -q --detach %s HEAD' % scr2).returncode == 0
+    assert sh('git apply %s' % os.path.join(dst, 'patch.diff'), cwd=scr2).returncode == 0
+    try:
+        env = dict(os.environ, VERIF_REPO=scr2, VERIF_EVIDENCE_DIR='/tmp/seed_ev_' + sid, VERIF_REPLAY_DIR='/tmp/seed_rp_' + sid)
+        for p in props:
+            t0 = time.time()
+            c = sh('./check %s --tier quick' % p, cwd=BASE, env=env)
+            lines = [l for l in c.stdout.splitlines() if l.startswith(('VIOLATION', 'UNDECIDED', 'KNOWN', 'UNSUPPORTED', 'VACUOUS', 'CHECKER'))]
+            meta['ran'].append({'cmd': 'VERIF_REPO=<patched scratch worktree> ./check %s --tier quick' % p, 'exit': c.returncode, 'lines': [l[:300] for l in lines[:6]], 'wall_s': round(time.time() - t0, 1)})
+            print(p, 'exit', c.returncode, lines[:3])
+    finally:
+        sh('git -C /repo worktree remove --force %s' % scr2)
+        shutil.rmtree('/tmp/seed_ev_' + sid, ignore_errors=True); shutil.rmtree('/tmp/seed_rp_' + sid, ignore_errors=True)
+    meta['detected'] = any(r['exit'] == 1 for r in meta['ran'])
+    mp = os.path.join(dst, 'meta.json')
+    old = json.load(open(mp)) if os.path.exists(mp) else {}
+    old.update(meta); json.dump(old, open(mp, 'w'), indent=1)
+    print('detected' if meta['detected'] else 'MISSED')
+    sys.exit(0)
 assert sh('git -C /repo status --porcelain --untracked-files=no').stdout.strip() in ('', 'M resources/libwayland_debug_logs/very-long.log'), 'repo not clean'
 r = sh('git -C /repo apply %s' % os.path.join(dst, 'patch.diff'))
 assert r.returncode == 0, r.stderr
